@@ -94,6 +94,11 @@ fn extract_int_literal(expr: &Spanned<Expr>) -> Option<i64> {
     match &expr.node {
         Expr::Literal(Literal::Int(n)) => Some(*n),
         Expr::Unary(UnaryOp::Neg, inner) => {
+            // Look through parentheses: lowering drops them, and the emitter classifies the lowered operand.
+            let mut inner = inner;
+            while let Expr::Paren(p) = &inner.node {
+                inner = p;
+            }
             if let Expr::Literal(Literal::Int(n)) = &inner.node {
                 Some(-n)
             } else {
